@@ -55,7 +55,49 @@ var histLen = 2
 
 func short(mt string) string { return strings.TrimPrefix(mt, "text/") }
 
-func checkWidth(r *ev.Report, doc, mt string) int64 {
+func checkWidth(r *ev.Report, doc, mt string) int64 { return checkWidthAt(r, doc, mt, widths) }
+
+// widths 1..40 and the standard ones: for the texts whose breaking points depend on where
+// exactly a word ends
+var denseWidths = func() []int {
+	var ws []int
+	for w := 1; w <= 40; w++ {
+		ws = append(ws, w)
+	}
+	return append(ws, 79, 80, 81)
+}()
+
+// spacesPart: every kind of white space Unicode has between two words (no-break and narrow
+// no-break space, figure, thin, ideographic and zero-width spaces, line separator, tab, word
+// joiner; written raw and, in HTML and Markdown, as a character reference), in paragraphs,
+// list entries, quotations and link labels of the four markups, at every width 1..40.
+func spacesPart(r *ev.Report) int64 {
+	kinds := []string{" ", "\u00a0", "\u202f", "\u2007", "\u2009", "\u3000", "\u200b", "\u2028", "\t", "\u2060", "\u1680", "\u2003", "\u00a0\u00a0", " \u00a0", "\u00a0 "}
+	var n int64
+	for _, sp := range kinds {
+		texts := []string{"Comment \u00e7a va" + sp + "?", "ici et 1" + sp + "000" + sp + "000 francs", "a" + sp + "b", "ab cd" + sp + "ef gh" + sp + "ij", "word" + sp + "wordwordword word"}
+		for _, t := range texts {
+			docs := [][2]string{
+				{"text/html", "<p>" + t + "</p>"}, {"text/html", "<ul><li>" + t + "</li></ul>"}, {"text/html", "<blockquote>" + t + "</blockquote>"}, {"text/html", `<a href="https://t.example/x">` + t + "</a>"},
+				{"text/markdown", t}, {"text/markdown", "> " + t}, {"text/markdown", "* " + t}, {"text/markdown", "[" + t + "](https://t.example/x)"},
+				{"text/gemini", t}, {"text/gemini", "> " + t}, {"text/gemini", "=> https://t.example/x " + t}, {"text/gemini", "* " + t},
+				{"text/plain", t}, {"text/plain", t + " https://t.example/x " + t},
+			}
+			if sp == "\u00a0" {
+				docs = append(docs, [2]string{"text/html", "<p>" + strings.ReplaceAll(t, sp, "&nbsp;") + "</p>"}, [2]string{"text/html", "<p>" + strings.ReplaceAll(t, sp, "&#160;") + "</p>"}, [2]string{"text/markdown", strings.ReplaceAll(t, sp, "&nbsp;")})
+			}
+			if sp == "\u202f" {
+				docs = append(docs, [2]string{"text/html", "<p>" + strings.ReplaceAll(t, sp, "&#x202f;") + "</p>"}, [2]string{"text/markdown", strings.ReplaceAll(t, sp, "&#8239;")})
+			}
+			for _, d := range docs {
+				n += checkWidthAt(r, d[1], d[0], denseWidths)
+			}
+		}
+	}
+	return n
+}
+
+func checkWidthAt(r *ev.Report, doc, mt string, widths []int) int64 {
 	m, err := markup(doc, mt)
 	if err != nil {
 		return 0 // content the accessor rejects (empty after scrubbing) is not a document
@@ -238,6 +280,7 @@ func main() {
 	r := ev.New("C15", "model_checking",
 		"width: every document of the HTML forest grammar (<=2 nodes over the full label set, <=3 (quick) / <=4 (thorough) nodes over 14 representative labels), and every line sequence "+
 			"of the gemtext/Markdown/plaintext grammars (<=2 / <=3 lines), rendered through object.GetMarkup at 16 widths {1..13,79,80,81}; "+
+			"15 kinds of white space between words (no-break, narrow no-break, figure, thin, ideographic, zero-width, line separator, tab, word joiner ...; raw and as character references) in paragraphs, list entries, quotations and link labels of the four markups at every width 1..40; "+
 			"histories: explicit-state search over the render cache: state = last rendered width, transition = Render(w), all width sequences of length <=2 (quick) / <=3 (thorough) over {1,3,80,81,200} on the complete "+
 			"small document spaces, each result compared byte-for-byte with a fresh parse; nine large documents (code listings of 40/200/700 lines in HTML and Markdown, 300 paragraphs, gemtext and plain listings) at widths 60/80/100 with 3 (quick) / 11 (thorough) short histories that repeat a width; ten documents whose attribute values or text imitate an over-long escape sequence; distinct_nontrivial = documents with at least one rendered line break or link")
 	debug.SetGCPercent(800)
@@ -254,7 +297,7 @@ func main() {
 			r.Distinct("b")
 			r.Finish()
 		}
-		checkWidth(r, d.Doc, d.MediaType)
+		checkWidthAt(r, d.Doc, d.MediaType, denseWidths)
 		checkHistories(r, d.Doc, d.MediaType, map[string]bool{})
 		r.Eval(1)
 		r.Distinct("a")
@@ -311,6 +354,7 @@ func main() {
 			r.Sample(map[string]any{"space": sp.Name, "doc": d, "widths": widths})
 		}
 	}
+	r.Eval(spacesPart(r))
 	// histories
 	type hres struct {
 		n      int64
